@@ -207,6 +207,15 @@ Theorem vpackvs_fits_buffer : forall fnames namelen classlen,
 Proof. exact vpackvs_lemma. Qed.
 Print Assumptions vpackvs_fits_buffer.
 
+(** mfsd.c SDsetattr / mfgr.c GRsetattr: an attribute is one Vdata field -- at most MAX_ORDER values and MAX_FIELD_SIZE
+    bytes; count * size is an int product that is only evaluated in range.  The guard sits in front of the hand-over to
+    the attribute list, so it covers a new name and the replacement of an existing one alike (the translator requires it
+    there: moving it elsewhere breaks this theorem's inputs) *)
+Theorem no_wrap_setattr : forall sz count, is_int32 count -> 0 < sz <= 8 ->
+  m_sdsetattr sz count = s_setattr sz count /\ m_grsetattr sz count = s_setattr sz count.
+Proof. exact setattr_lemma. Qed.
+Print Assumptions no_wrap_setattr.
+
 (** "the library remains usable after a refused request", at the level of the specification: a refused request
     returns the abstract state it was given -- for every operation of the harness language (H, Vgroup, Vdata, SD
     level).  [plain_request] excludes only the reservations (next theorem), the linked-block write (refused after
@@ -284,4 +293,7 @@ Example refusal_examples :
   let st := fst (step (fst (step (fst (step init (OHopen 16))) (OVgNew 0))) (OVgAdd 0 1000 0 65535)) in
   plain_request st (OVgAdd 0 1000 0 1) = true /\ snd (step st (OVgAdd 0 1000 0 1)) = RFail [Some 0]
   /\ plain_request st (OVgSetName 0 65536) = true /\ snd (step st (OVgSetName 0 65536)) = RFail [].
+Proof. vm_compute. repeat split; reflexivity. Qed.
+Example setattr_at_limit : m_sdsetattr 4 16383 = true /\ m_sdsetattr 4 16384 = false /\ m_sdsetattr 1 65536 = false
+                         /\ m_grsetattr 8 8191 = true /\ m_grsetattr 8 8192 = false /\ m_sdsetattr 4 1073741824 = false.
 Proof. vm_compute. repeat split; reflexivity. Qed.
